@@ -265,8 +265,15 @@ pub fn run(out: &mut Out, seed: u64, thorough: bool, replay: Option<&str>) {
     }
     let mut rng = Rng::new(seed ^ 0x3e7);
     let mut t0 = 9_000_000_000_000_000u64;
-    let shapes: Vec<(usize, usize, bool)> = if thorough { vec![(1, 1, false), (2, 1, false), (3, 2, true), (6, 2, false), (12, 3, true), (20, 4, false)] } else { vec![(1, 1, false), (3, 1, true), (6, 2, false)] };
-    for (servers, clients, public) in shapes {
+    // (servers, clients, public addresses, public address configured): with public addresses that are
+    // not configured, every node learns its address from its peers' votes, confirms it by self-ping
+    // and re-keys (BEP42) while the network forms
+    let shapes: Vec<(usize, usize, bool, bool)> = if thorough {
+        vec![(1, 1, false, false), (2, 1, false, false), (3, 2, true, true), (4, 1, true, false), (6, 2, false, false), (12, 3, true, true), (9, 2, true, false), (20, 4, false, false)]
+    } else {
+        vec![(1, 1, false, false), (3, 1, true, true), (4, 1, true, false), (6, 2, false, false)]
+    };
+    for (servers, clients, public, configured) in shapes {
         t0 += 100_000_000_000_000;
         let mut net = Net::new(out, rng.next());
         net.begin(t0);
@@ -274,11 +281,11 @@ pub fn run(out: &mut Out, seed: u64, thorough: bool, replay: Option<&str>) {
         let first = SocketAddrV4::new(ip_of(0, public), 6881);
         for i in 0..servers {
             let boot = if i == 0 { vec![] } else { vec![first] };
-            net.add_node("s", &boot, ip_of(i, public), public, rng.next() % 1_000_000 + 1);
+            net.add_node("s", &boot, ip_of(i, public), public && configured, rng.next() % 1_000_000 + 1);
             net.run_for(300 * MS, 5 * MS);
         }
         for c in 0..clients {
-            net.add_node("c", &[first], ip_of(servers + c, public), public, rng.next() % 1_000_000 + 1);
+            net.add_node("c", &[first], ip_of(servers + c, public), public && configured, rng.next() % 1_000_000 + 1);
             net.run_for(300 * MS, 5 * MS);
         }
         net.run_for(2 * SEC, 10 * MS);
@@ -391,7 +398,62 @@ pub fn run(out: &mut Out, seed: u64, thorough: bool, replay: Option<&str>) {
             }
         }
         net.out.mark_distinct(net.rng.0 ^ servers as u64);
-        net.out.count(&format!("net-{servers}s-{clients}c"));
+        net.out.count(&format!("net-{servers}s-{clients}c{}", if public && !configured { "-rekeying" } else { "" }));
+        net.s.shutdown();
+    }
+    // ---- late holder (C01): the reader looked the key up before it was stored; a server joins, the
+    //      value is stored (the newcomer acknowledges), every older server crashes; the reader still
+    //      knows the newcomer, which is alive and holds the value
+    for round in 0..(if thorough { 3 } else { 1 }) {
+        t0 += 100_000_000_000_000;
+        let old = 3 + round;
+        let mut net = Net::new(out, rng.next());
+        net.begin(t0);
+        let first = SocketAddrV4::new(ip_of(0, false), 6881);
+        for i in 0..old {
+            let boot = if i == 0 { vec![] } else { vec![first] };
+            net.add_node("s", &boot, ip_of(i, false), false, rng.next() % 1_000_000 + 1);
+            net.run_for(300 * MS, 5 * MS);
+        }
+        // the reader is a client: it is never listed, so it never answers itself from its own store
+        let reader = net.add_node("c", &[first], ip_of(old, false), false, rng.next() % 1_000_000 + 1);
+        net.run_for(300 * MS, 5 * MS);
+        let writer = net.add_node("c", &[first], ip_of(old + 1, false), false, rng.next() % 1_000_000 + 1);
+        net.run_for(2 * SEC, 10 * MS);
+        let v = format!("late holder {round}").into_bytes();
+        let target = imm_target(&v);
+        let c0 = net.api(reader, format!("get_imm t={}", hex(target.as_bytes())));
+        net.settle(20 * SEC, 10 * MS);
+        let _ = c0;
+        let late = net.add_node("s", &[first], ip_of(old + 2, false), false, rng.next() % 1_000_000 + 1);
+        net.run_for(2 * SEC, 10 * MS);
+        // the reader learns the newcomer from the first node's answers to an unrelated lookup
+        let other = Id::from_bytes(rng.id20()).expect("id");
+        net.api(reader, format!("find_node t={}", hex(other.as_bytes())));
+        net.settle(20 * SEC, 10 * MS);
+        let c_put = net.api(writer, format!("put_imm v={}", hex(&v)));
+        net.settle(20 * SEC, 10 * MS);
+        let put_ok = net.results(writer, c_put).first().map(|r| r.contains(":ok:")).unwrap_or(false);
+        for s in 0..old {
+            net.crash(s);
+        }
+        net.run(format!("n{reader} snap"));
+        let late_addr = SocketAddrV4::new(ip_of(late, false), 6881);
+        let knows_late = net.s.nodes[reader].last_snapshot.as_ref().map(|s| s.routing_table.iter().any(|(_, a, _)| *a == late_addr)).unwrap_or(false);
+        let c_get = net.api(reader, format!("get_imm t={}", hex(target.as_bytes())));
+        net.settle(30 * SEC, 10 * MS);
+        let found = net.results(reader, c_get).first().map(|r| r.contains(":some:")).unwrap_or(false);
+        let holders = net.holders(writer, &hex(target.as_bytes()), reader);
+        net.out.count(&format!("late-holder:{}:knows={knows_late}:holds={}", if found { "found" } else { "miss" }, holders.contains(&late)));
+        if put_ok && !found && knows_late && holders.contains(&late) {
+            net.out.violation("C01", "put-then-get-miss-after-crash", format!("node {late} joined after node {reader}'s first lookup, acknowledged the write and is alive and in node {reader}'s routing table, the {old} older servers crashed, and node {reader} did not find the value"));
+        }
+        for i in 0..net.s.nodes.len() {
+            if net.alive[i] {
+                net.run(format!("n{i} snap"));
+            }
+        }
+        net.out.mark_distinct(net.rng.0 ^ 0x1a7e ^ round as u64);
         net.s.shutdown();
     }
     out.sample("case mnet: node 0 (first, no bootstrap), node i bootstraps from node 0; n<i> step from=<addr> re=<key> msg=<hex> delivers one datagram; put on the last node, get on another".into());
